@@ -4,11 +4,12 @@ From PV Require Import Base.MachineInt Model.Znx Model.Limbs Model.Flat Model.C0
 Open Scope Z_scope.
 
 (* the in-place normaliser keeps the value exactly (nothing is truncated) and returns balanced digits: C08 *)
-Definition normalize_assign_value_ok (R : Z) : Prop :=
-  forall b r, 1 <= b <= R -> Forall (fun x => Z.abs x <= 2 ^ 62) r ->
+Definition normalize_assign_value_ok_dom (D : Z -> Prop) : Prop :=
+  forall b r, D b -> Forall (fun x => Z.abs x <= 2 ^ 62) r ->
     let out := normalize_assign 64 b r in
     length out = length r /\ Forall (in_range b) out /\
     forall P, zn (length r) * b <= P -> tor_abs P (val_scaled P b out - val_scaled P b r) = 0.
+Definition normalize_assign_value_ok (R : Z) : Prop := normalize_assign_value_ok_dom (fun x => 1 <= x <= R).
 
 (* |<a, s>| <= |s|_1 * max|a| *)
 Lemma fold_add_acc (l : list Z) (acc : Z) : fold_left Z.add l acc = acc + fold_left Z.add l 0.
@@ -25,13 +26,16 @@ Proof.
 Qed.
 
 Section Lwe.
-Variables b pb R : Z.
+Variables b pb : Z.
+Variable Dm : Z -> Prop.
 Variables size psize : nat.
 Variable nk : Z.
-Hypothesis normalize_value_ok_small : normalize_value_ok (fun rb ab => normalize 64 rb ab 0) (2 ^ 62) R.
-Hypothesis normalize_assign_ok : normalize_assign_value_ok R.
-Hypothesis Hb : 1 <= b <= R.
-Hypothesis Hpb : 1 <= pb <= R.
+Hypothesis normalize_value_ok_small : normalize_value_ok_dom Dm (fun rb ab => normalize 64 rb ab 0) (2 ^ 62).
+Hypothesis normalize_assign_ok : normalize_assign_value_ok_dom Dm.
+Hypothesis Hb : Dm b.
+Hypothesis Hpb : Dm pb.
+Hypothesis Hb_pos : 1 <= b.
+Hypothesis Hpb_pos : 1 <= pb.
 Variables D E M : Z.
 
 Theorem lwe_roundtrip (pt s : list Z) (a : list (list Z)) (e : Z) (body d : list Z) :
@@ -123,6 +127,6 @@ Lemma lwe_roundtrip_value :
     tor_abs P (val_scaled P pb d - val_scaled P b (firstn size pt) - e * wt P b (target_limb nk b)) <= 2 ^ (P - zn psize * pb).
 Proof.
   intros b pb R size psize nk D E M H1 H2 H3 H4 pt s a e body d A1 A2 A3 A4 A5 A6 A7.
-  destruct (lwe_roundtrip b pb R size psize nk H1 H2 H3 H4 D E M pt s a e body d A1 A2 A3 A4 A5 A6 A7) as (_ & _ & _ & L & V).
+  destruct (lwe_roundtrip b pb (fun x => 1 <= x <= R) size psize nk H1 H2 H3 H4 (proj1 H3) D E M pt s a e body d A1 A2 A3 A4 A5 A6 A7) as (_ & _ & _ & L & V).
   split; [exact L|]. intros P Q1 Q2 Q3. apply (V P Q1 Q2 Q3).
 Qed.
